@@ -62,6 +62,10 @@ def c15MultiEntry (hasData : Bool) (entryEmpty : Bool) (inner : Option String) :
   else if !hasData && !entryEmpty then some "multi-nonempty-entry-for-a-network-without-observations"
   else if hasData then inner else none
 
+/-- A non-finite entry (NaN, ±∞) in a returned batch or store is not an entry of the user's (finite)
+    tables nor a sample of a range: the row is not a row of the tables. -/
+def c15NotFinite (what : String) : Option String := some (what ++ "-entry-not-finite")
+
 /-! ### whole traces -/
 
 /-- a batch as returned: `(pinn_in, val, eq_params)` with the observed parameters by name -/
